@@ -78,6 +78,9 @@ type L2 struct {
 	T *Transcript
 	// Speculate: see L1.Speculate.
 	Speculate bool
+	// Shadow: see L1.Shadow.
+	Shadow   func(br *L2)
+	isShadow bool
 }
 
 // L2Opts configures a new L2.
@@ -229,22 +232,49 @@ func (c *L2) RestorePlans(m map[uint64]opchildtypes.ExecutorChangePlan) {
 
 func (c *L2) Fund(addr sdk.AccAddress, coins ...sdk.Coin) { fund(c.Ctx, c.BK, addr, coins...) }
 
+func (c *L2) countShadow(r Result) {
+	if c.isShadow {
+		if r.Class == OK {
+			ShadowStats.TxOK.Add(1)
+		} else {
+			ShadowStats.TxRejected.Add(1)
+		}
+	}
+}
+
+func (c *L2) runShadow() {
+	if c.Shadow == nil {
+		return
+	}
+	br := c.Branch()
+	br.Shadow, br.Speculate, br.T, br.isShadow = nil, false, nil, true
+	ShadowStats.Scripts.Add(1)
+	defer func() { _ = recover() }()
+	c.Shadow(br)
+}
+
 func (c *L2) Deliver(msgs ...sdk.Msg) Result {
+	c.runShadow()
 	if c.Speculate {
+		ShadowStats.Speculated.Add(1)
 		spec, _ := c.Ctx.CacheContext()
 		_ = deliver(spec, c.Router, 0, msgs...)
 	}
 	r := deliver(c.Ctx, c.Router, 0, msgs...)
+	c.countShadow(r)
 	c.T.AddResult(msgs, r)
 	return r
 }
 
 func (c *L2) DeliverGas(gasLimit uint64, msgs ...sdk.Msg) Result {
+	c.runShadow()
 	if c.Speculate {
+		ShadowStats.Speculated.Add(1)
 		spec, _ := c.Ctx.CacheContext()
 		_ = deliver(spec, c.Router, gasLimit, msgs...)
 	}
 	r := deliver(c.Ctx, c.Router, gasLimit, msgs...)
+	c.countShadow(r)
 	c.T.AddResult(msgs, r)
 	return r
 }
